@@ -11,9 +11,9 @@
    `nd` = warm-up length (n_discard of the current run); `da_m` = number of adaptation updates
    so far (persists across runs); `a` = acceptance statistic alpha / n_alpha of the transition
    just performed.  m^(-kappa) is written exp (- kappa * ln m). *)
-From MiniMcmc Require Import Model.DualAvg Proofs.DualAvg.
-From Coq Require Import Reals List.
-From Interval Require Import Interval Xreal.
+From MiniMcmc Require Import Model.DualAvg Proofs.DualAvg Model.FindEps Proofs.FindEps.
+From Coq Require Import Reals Qreals List.
+From Interval Require Import Interval Xreal Tactic.
 Open Scope R_scope.
 
 Section C04.
@@ -253,6 +253,58 @@ Theorem C04_interval_sound_run :
   contains (I.convert (da_mu tnumI si')) (Xreal (da_mu tnumR sr')).
 Proof. exact da_run_encl. Qed.
 
+(* ---- (7) find_reasonable_epsilon as a whole, and its executable form (Model/FindEps.v) ---- *)
+
+(* the generic executable version, instantiated at the reals with the constant ln(1/2), is the model *)
+Theorem C04_find_eps_gen_is_model : forall (lap : R -> R) (fuel : nat),
+  find_eps_gen numR lap (ln (1 / 2)) fuel = find_eps lap fuel.
+Proof. exact find_eps_gen_is_model. Qed.
+
+(* the direction is decided by lap 1 (the log acceptance probability of the step of size 1); the result
+   is the FIRST point 1/2 * 2^(+-k), k >= 1, of the grid at which the test fails, the test "at k = 0"
+   being the one on lap 1 (not on lap (1/2)); and it is 1/2 exactly when lap 1 = ln(1/2) *)
+Theorem C04_find_eps_direction : forall (lap : R -> R) (fuel : nat) (e : R),
+  find_eps lap fuel = Some e ->
+  (ln (1 / 2) < lap 1 ->
+     exists k : nat, (1 <= k <= fuel)%nat /\ e = 1 / 2 * 2 ^ k /\ ~ (ln (1 / 2) < lap e) /\
+       forall i : nat, (1 <= i < k)%nat -> ln (1 / 2) < lap (1 / 2 * 2 ^ i))
+  /\ (lap 1 < ln (1 / 2) ->
+     exists k : nat, (1 <= k <= fuel)%nat /\ e = 1 / 2 * (/ 2) ^ k /\ ~ (lap e < ln (1 / 2)) /\
+       forall i : nat, (1 <= i < k)%nat -> lap (1 / 2 * (/ 2) ^ i) < ln (1 / 2))
+  /\ (lap 1 = ln (1 / 2) -> e = 1 / 2).
+Proof. exact find_eps_direction. Qed.
+
+(* soundness of the rational evaluation: if the executable version over Q (numQ, normalised rationals),
+   run once with a rational lower bound and once with a rational upper bound of ln(1/2) in place of
+   ln(1/2), returns the same value both times, then the real model returns that value
+   (lapQ is the rational restriction of lapR) *)
+Theorem C04_find_eps_bracket :
+  forall (lapQ : Q -> Q) (lapR : R -> R) (lo hi : Q) (fuel : nat) (e : Q),
+  (forall q : Q, lapR (Q2R q) = Q2R (lapQ q)) ->
+  Q2R lo < ln (1 / 2) < Q2R hi ->
+  find_eps_gen numQ lapQ lo fuel = Some e ->
+  find_eps_gen numQ lapQ hi fuel = Some e ->
+  find_eps lapR fuel = Some (Q2R e).
+Proof. intros lapQ lapR lo hi fuel e Hlap Hb. exact (find_eps_bracket lapQ lapR lo hi Hlap Hb fuel e). Qed.
+
+(* the two constants used by the evaluation do bracket ln(1/2) *)
+Theorem C04_lnhalf_bounds : Q2R lnhalf_lo < ln (1 / 2) < Q2R lnhalf_hi.
+Proof. exact lnhalf_bounds. Qed.
+
+(* the log acceptance probability of one leapfrog step on the Gaussian-precision target commutes
+   with the embedding of Q into R (no division other than by 2 occurs) *)
+Theorem C04_lap_gauss_q2r : forall (A : list (list Q)) (x p : list Q) (q : Q),
+  lap_gauss numR (map (map Q2R) A) (map Q2R x) (map Q2R p) (Q2R q)
+  = Q2R (lap_gauss numQ A x p q).
+Proof. exact q2r_lap_gauss. Qed.
+
+(* hence the in-Coq evaluation is sound: when its two halves (lower / upper bound of ln(1/2), fuel 40)
+   print the same positive rational e, find_eps on the real Gaussian-precision oracle returns e *)
+Theorem C04_find_eps_eval_sound : forall (A : list (list Q)) (x p : list Q) (e : Q),
+  find_eps_eval A x p = qout e ++ qout e -> 0 < Q2R e ->
+  find_eps (lap_gauss numR (map (map Q2R) A) (map Q2R x) (map Q2R p)) 40 = Some (Q2R e).
+Proof. exact find_eps_eval_sound. Qed.
+
 (* ---- non-vacuity ---- *)
 
 (* the freshly created chain (m = 0, eps = 1/2, eps_bar = 1, h_bar = 0, mu = ln (10 * 1/2)) with
@@ -296,6 +348,44 @@ Example C04_interval_eval_finite :
   map (fun i => nth i out 2%Z) [0; 3; 6; 9; 12; 15]%nat = [1; 1; 1; 1; 1; 1]%Z.
 Proof. vm_compute. split; reflexivity. Qed.
 
+(* (7): two oracles for which find_eps does not stop at 1/2: lap e = -16 e^2 (lap 1 = -16 < ln(1/2):
+   halve while lap < ln(1/2); lap(1/4) = -1 passes, lap(1/8) = -1/4 fails) and lap e = -e^2/16
+   (lap 1 = -1/16 > ln(1/2): double; lap 1, lap 2 = -1/4 pass, lap 4 = -1 fails) *)
+Example C04_find_eps_example :
+  find_eps (fun e => - (16 * e * e)) 5 = Some (1 / 8) /\
+  find_eps (fun e => - (e * e / 16)) 5 = Some 4.
+Proof.
+  assert (Hb : - (7 / 10) < ln (1 / 2) < - (69 / 100)) by (split; interval with (i_prec 40)).
+  pose proof ln_half as Hl.
+  split; unfold find_eps, direction; cbv zeta.
+  - destruct (Rlt_dec (ln (1 / 2)) (- (16 * 1 * 1))) as [H|H]; [exfalso; Lra.lra|].
+    cbn [find_loop]. rewrite Rpower_2_m1.
+    repeat match goal with
+           | |- (if Rlt_dec ?a ?b then _ else _) = _ =>
+               destruct (Rlt_dec a b); [try (exfalso; Lra.lra) | try (exfalso; Lra.lra)]
+           end.
+    f_equal. Lra.lra.
+  - destruct (Rlt_dec (ln (1 / 2)) (- (1 * 1 / 16))) as [H|H]; [|exfalso; Lra.lra].
+    cbn [find_loop]. rewrite Rpower_2_1.
+    repeat match goal with
+           | |- (if Rlt_dec ?a ?b then _ else _) = _ =>
+               destruct (Rlt_dec a b); [try (exfalso; Lra.lra) | try (exfalso; Lra.lra)]
+           end.
+    f_equal. Lra.lra.
+Qed.
+
+(* the rational evaluation on the 1-D standard Gaussian target from x = 1, p = 1 agrees under both
+   bounds and prints 4/1, so C04_find_eps_eval_sound applies: the real model returns 4 there *)
+Example C04_find_eps_eval_example :
+  find_eps_eval [[1%Q]] [1%Q] [1%Q] = qout 4%Q ++ qout 4%Q /\
+  find_eps (lap_gauss numR (map (map Q2R) [[1%Q]]) (map Q2R [1%Q]) (map Q2R [1%Q])) 40
+  = Some (Q2R 4%Q).
+Proof.
+  assert (H : find_eps_eval [[1%Q]] [1%Q] [1%Q] = qout 4%Q ++ qout 4%Q) by (vm_compute; reflexivity).
+  split; [exact H|]. apply C04_find_eps_eval_sound; [exact H|].
+  unfold Q2R. cbn. Lra.lra.
+Qed.
+
 Print Assumptions C04_warmup_closed_form.
 Print Assumptions C04_warmup_exp_form.
 Print Assumptions C04_hbar_update.
@@ -319,3 +409,11 @@ Print Assumptions C04_find_eps_complete.
 Print Assumptions C04_interval_sound.
 Print Assumptions C04_interval_sound_init.
 Print Assumptions C04_interval_sound_run.
+Print Assumptions C04_find_eps_gen_is_model.
+Print Assumptions C04_find_eps_direction.
+Print Assumptions C04_find_eps_bracket.
+Print Assumptions C04_lnhalf_bounds.
+Print Assumptions C04_lap_gauss_q2r.
+Print Assumptions C04_find_eps_eval_sound.
+Print Assumptions C04_find_eps_example.
+Print Assumptions C04_find_eps_eval_example.
